@@ -784,13 +784,18 @@ pub fn jobs_c06(tier: Tier) -> Vec<Job> {
     r.state_oracles = vec![c06_claimable];
     let mut core = FuChecker::new("c06-fu-core", vec!["F2", "F3"], FAlpha::RewardCore, vec![c06_rewards]);
     core.state_oracles = vec![c06_claimable];
-    vec![explore_job(r, tier.pick(3, 4), Caps::default()), explore_job(core, tier.pick(4, 6), Caps::default())]
+    let mut many = FuChecker::new("c06-fu-manyfarms", vec!["F6"], FAlpha::RewardCore, vec![c06_rewards]);
+    many.max_farms = 12;
+    many.state_oracles = vec![c06_claimable];
+    vec![explore_job(r, tier.pick(3, 4), Caps::default()), explore_job(core, tier.pick(5, 7), Caps::default()), explore_job(many, tier.pick(2, 4), Caps::default())]
 }
 pub fn jobs_c07(tier: Tier) -> Vec<Job> {
     let r = FuChecker::new("c07-fu-reward", vec!["F1", "F2", "F3"], FAlpha::Reward, vec![c07_share]);
     let mut d = FuChecker::new("c07-fu-diamond", vec!["F2", "F3"], FAlpha::RewardCore, vec![c07_share]);
     d.state_oracles = vec![c07_diamond];
-    vec![explore_job(r, tier.pick(3, 4), Caps::default()), explore_job(d, tier.pick(3, 4), Caps::default())]
+    let mut many = FuChecker::new("c07-fu-manyfarms", vec!["F6"], FAlpha::RewardCore, vec![c07_share, c06_rewards]);
+    many.max_farms = 12;
+    vec![explore_job(r, tier.pick(3, 4), Caps::default()), explore_job(d, tier.pick(4, 5), Caps::default()), explore_job(many, tier.pick(2, 4), Caps::default())]
 }
 pub fn jobs_c08(tier: Tier) -> Vec<Job> {
     let full = FuChecker::new("c08-fu-full", vec!["F0", "F2", "F4", "F5"], FAlpha::Full, vec![c08_positions]);
